@@ -12,9 +12,11 @@ evaluated on the implementation after every edit + `sequence()` is a linear exte
 register-adding prologue prescribes + depth/register depth/incompatibility sets recomputed by own graph code.
 Specifications assumed for networkx (`topological_sort`, `ancestors`, `descendants`, `dag_longest_path_length`) are
 checked on every observed result.
-After every successful `group_one_qubit_gates` of a random walk the statement of `C12.group_is_fuse_of_runs_after_any_history` is
-evaluated on the implementation: every wire's operation sequence must be `fuseWire` (own Python transcription: maximal runs of
-groupable operations -> one wrapper, classes of the last operation first) of what it was before the call.
+After every successful `group_one_qubit_gates` / `unwrap_nodes` / `remove_identity` of a random walk the statement of
+`C12.rewrite_history_on_wired_wires` (`group_is_fuse_of_runs_on_wired_wires`, `unwrap_nodes_is_flatMap_on_wired_wires`,
+`remove_identity_is_filter_on_wired_wires`) is evaluated on the implementation: every wire's operation sequence — each operation with
+the classical registers it is actually threaded on — must be the rewrite's list edit (`fuseWire`: maximal runs of groupable operations ->
+one wrapper, classes of the last operation first; flatMap-unwrap; filter of the non-identities; own Python transcriptions) of what it was.
 """
 import time
 
@@ -78,7 +80,8 @@ ONE_Q_BASE = {"Hadamard", "SigmaX", "SigmaY", "SigmaZ", "Phase", "PhaseDagger", 
 
 
 def wire_tokens(circ):
-    """{register: [operation token of every operation node on the wire, in wire order]}, read off the keyed edges"""
+    """{register: [operation token of every operation node on the wire, in wire order]}, read off the keyed edges; every token AS
+    WIRED (`wiredWire` of Proofs/MetricsHistIso.lean): only the classical registers the node is actually threaded on"""
     g = circ.dag
     out = {}
     for t in "epc":
@@ -89,9 +92,33 @@ def wire_tokens(circ):
             while n in nxt and len(seq) <= len(nxt) + 1:
                 n = nxt[n]
                 if not isinstance(n, str):
-                    seq.append(du.op_token(g.nodes[n]["op"]))
+                    name, q, c, lab, inner = du.op_token(g.nodes[n]["op"]).split(":")
+                    threaded = {kk[1:] for _, _, kk in g.in_edges(n, keys=True) if kk.startswith("c")}
+                    cs = [] if c == "*" else [x for x in c.split(".") if x in threaded]
+                    seq.append(":".join([name, q, du.emp(".".join(cs)), lab, inner]))
             out[k] = seq
     return out
+
+
+def unwrap_wire(toks):
+    """`flatMap Op.unwrap`: a wrapper becomes its gates in application order (the reverse of its gate list), fresh one-qubit objects"""
+    out = []
+    for tok in toks:
+        name, q, _, _, inner = tok.split(":")
+        if name == "OneQubitGateWrapper":
+            out += [f"{k}:{q}:*:one-qubit:*" for k in reversed([] if inner == "*" else inner.split("."))]
+        else:
+            out.append(tok)
+    return out
+
+
+def rewrite_wire(kind, r, toks):
+    """the list edit `Rewrite.onWire` of Properties/C12.lean"""
+    if kind == "G":
+        return fuse_wire(r, toks)
+    if kind == "U":
+        return unwrap_wire(toks)
+    return [t for t in toks if t.split(":")[0] != "Identity"]
 
 
 def fuse_wire(r, toks):
@@ -356,19 +383,19 @@ def one_walk(ctx, res, drv, rng, init, steps, malformed_rate=0.04, query_every=1
         ed = du.gen_edit(rng, h.circ, malformed=mal, max_regs=max_regs)
         before = reg_counts(h.circ)
         full = (s % query_every == 0) or s == steps - 1
-        wires_before = wire_tokens(h.circ) if ed[0] == "G" else None
+        wires_before = wire_tokens(h.circ) if ed[0] in ("G", "U", "D") else None
         # the un-memoised recursion of register_depth is exponential in the worst case: ask only when cheap
         err = h.step(ed, "*")
         if err == "skipped":
             continue
         if wires_before is not None and err is None:
             wires_after = wire_tokens(h.circ)
-            res.count("branches", "group:fuse-of-runs-evaluated")
+            res.count("branches", f"rewrite:{ed[0]}:list-edit-on-wired-wires-evaluated")
             for r, w in wires_before.items():
-                if wires_after.get(r) != fuse_wire(r, w):
-                    res.exact_break("group.fuse-of-runs", input=h.input(), impl=wires_after.get(r), model=fuse_wire(r, w),
-                                    note=f"wire {r} after group_one_qubit_gates is not the fuse of its maximal runs "
-                                         "(theorem group_is_fuse_of_runs_after_any_history contradicted by evaluation)")
+                if wires_after.get(r) != rewrite_wire(ed[0], r, w):
+                    res.exact_break("rewrite.list-edit-on-wires:" + ed[0], input=h.input(), impl=wires_after.get(r), model=rewrite_wire(ed[0], r, w),
+                                    note=f"wire {r} (operations as wired) after the rewrite is not the list edit of the wire before "
+                                         "(theorem rewrite_history_on_wired_wires / group_is_fuse_of_runs_on_wired_wires contradicted by evaluation)")
                     break
         res.evaluations += 1
         res.count("sizes", "nodes<=10" if len(h.circ.dag) <= 10 else ("nodes<=40" if len(h.circ.dag) <= 40 else ("nodes<=120" if len(h.circ.dag) <= 120 else "nodes>120")))
